@@ -259,6 +259,20 @@ pub fn gen_mode(o: &Opts, mode: u32, sink: &mut dyn FnMut(Vec<i64>, String)) {
             }
             put!(c);
         }
+        // the same measurement frames from OTHER senders (the neighbouring encoders, a second engine, a second
+        // hydraulic unit, strangers): the joint / engine / bank is identified by the sender - no measurement from this unit
+        {
+            let nfo = if full { 40_000 } else { 4_000 };
+            for j in 0..nfo {
+                let kind = [4i64, 4, 5, 6, 7, 1][(j % 6) as usize];
+                let (da, sa) = cfg_for(kind, rng.below(6));
+                let pgn = match kind { 4 => 65450u32, 5 => 65451, 6 | 7 => 61444, _ => 65288 };
+                let other = loop { let o = match rng.below(4) { 0 => 0x6a + rng.below(4) as i64, 1 => (da + 1) % 256, 2 => *rng.pick(&[0x00i64, 0x01, 0x4a, 0x4b, 0x7a, 0x7b, 0x27, 0xfe, 0xff]), _ => rng.below(256) as i64 }; if o != da { break o; } };
+                let mut c = vec![kind, da, sa, id_of(*rng.pick(&[3u32, 6]), pgn, 0, other as u32) as i64];
+                c.extend(typical(pgn, &mut rng));
+                put!(c);
+            }
+        }
         // hydraulic status: every (state, lock) byte pair
         for st in 0..=255i64 { for lk in 0..=255i64 {
             if !full && lk > 3 && lk < 254 && (st + lk) % 16 != 0 { continue; }
